@@ -3,7 +3,7 @@
    (opendsm/eemeter/models/hourly_caltrack/wrapper.py:166-207, segmentation.py:185-225).
    Executable definitions and relations only; lemmas are in Proofs/CounterfactualProofs.v. *)
 From Coq Require Import ZArith List Bool Arith.
-From V Require Import Model.Rows Model.PredictRows.
+From V Require Import Model.Rows Model.PredictRows Model.Resample Model.TempAgg.
 Import ListNotations.
 
 (* ------------------------------------------------------------------ daily / billing, Model/Rows.v *)
@@ -36,8 +36,8 @@ End DailyRows.
    (with the routing by `_meter_segment` and the left join made explicit) *)
 Section DailyPipeline.
   Context {V : Type}.
-  Definition dwc_of (r : @drow V) : Z * option V := (d_ts r, d_temp r).
-  Definition same_weather_calendar_drows (a b : list (@drow V)) : Prop := map dwc_of a = map dwc_of b.
+  Definition dwc_of (r : @PredictRows.drow V) : Z * option V := (d_ts r, d_temp r).
+  Definition same_weather_calendar_drows (a b : list (@PredictRows.drow V)) : Prop := map dwc_of a = map dwc_of b.
 End DailyPipeline.
 
 (* ------------------------------------------------------------------ CalTRACK hourly
@@ -74,3 +74,70 @@ Section CalTrackFlow.
   Definition cwc_of (r : crow) : Z * Z * Z * option T := (c_utc r, c_month r, c_how r, c_temp r).
   Definition same_weather_calendar_crows (a b : list crow) : Prop := map cwc_of a = map cwc_of b.
 End CalTrackFlow.
+
+(* ------------------------------------------------------------------ daily data class: the temperature of a meter day
+   (opendsm/eemeter/models/daily/data.py _compute_meter_value_df / _compute_temperature_features; the aggregation itself
+   is C09's Model/TempAgg.v, imported read-only).  The class first builds the index of the METER DAYS and then gives every
+   meter day the mean of the hourly temperatures from its stamp up to the next meter day's stamp (merge_asof backward).
+   The aggregation reads weather only; usage can enter through the meter-day index alone:
+     DayIndexFromCalendar   the index is a function of the stamps of the frame (what the statement needs)
+     as coded               usage present: the stamps of the readings plus, for every calendar date without a reading, a
+                            filler day stamped on a clock [fill_clock]; usage all NaN / absent: local midnights.
+                            fill_clock = FrameStart   (unchanged code: the time of day of the first row of the frame)
+                                       | ReadingClock (proposed repair C05-4.diff: the time of day of the readings)
+   Stamps are local wall-clock minutes (the harness converts; a calendar day is 1440 of them — windows over a clock change
+   are not generated for this stream). *)
+Open Scope Z_scope.
+Inductive fill_clock := FrameStart | ReadingClock.
+
+Definition date_of (s : Z) : Z := s / 1440.
+Definition clock_of (s : Z) : Z := s mod 1440.
+
+Fixpoint insert_stamp (x : Z) (l : list Z) : list Z :=
+  match l with
+  | [] => [x]
+  | y :: t => if x =? y then l else if x <? y then x :: l else y :: insert_stamp x t
+  end.
+Definition sort_stamps (l : list Z) : list Z := fold_right insert_stamp [] l.
+
+(* pd.date_range(start, end, freq="D"): start, start + 1 day, ... <= end *)
+Definition day_range (start stop : Z) : list Z :=
+  if stop <? start then [] else map (fun k => start + 1440 * Z.of_nat k) (seq 0 (S (Z.to_nat ((stop - start) / 1440)))).
+
+(* frame: stamps of its rows (sorted), and which rows carry a usage reading *)
+Definition meter_index_as_coded (fc : fill_clock) (stamps : list Z) (has_usage : list bool) : list Z :=
+  let readings := map fst (filter snd (combine stamps has_usage)) in
+  match stamps, readings with
+  | [], _ => []
+  | first :: _, [] => day_range (date_of first * 1440) (last stamps first)          (* resample("D").first() *)
+  | first :: _, r0 :: _ =>
+      let start := match fc with
+                   | FrameStart => first
+                   | ReadingClock => date_of first * 1440 + clock_of (fold_right Z.min r0 readings)
+                   end in
+      let fillers := filter (fun f => negb (existsb (fun r => date_of r =? date_of f) readings))
+                            (day_range start (last stamps first)) in
+      sort_stamps (readings ++ fillers)
+  end.
+
+(* the temperature rows of the meter days *)
+Definition day_temps (tol : option Z) (midx : list Z) (temps : list reading) : list (Z * trow) :=
+  combine midx (rows_for tol midx temps).
+
+(* the stage as the statement needs it: index from the stamps of the frame *)
+Definition daily_stage (day_index : list Z -> list Z) (tol : option Z) (fr : list frow) : list (Z * trow) :=
+  day_temps tol (day_index (map f_stamp fr)) (temps_of fr).
+(* the stage as coded (one reading per day at most, hourly weather) *)
+Definition daily_stage_as_coded (fc : fill_clock) (tol : option Z) (fr : list frow) : list (Z * trow) :=
+  day_temps tol (meter_index_as_coded fc (map f_stamp fr) (map (fun r => match f_obs r with Some _ => true | None => false end) fr))
+            (temps_of fr).
+
+Definition same_weather_frows (a b : list frow) : Prop :=
+  map (fun r => (f_stamp r, f_temp r)) a = map (fun r => (f_stamp r, f_temp r)) b.
+Definition same_usage_presence (a b : list frow) : Prop :=
+  map (fun r => match f_obs r with Some _ => true | None => false end) a =
+  map (fun r => match f_obs r with Some _ => true | None => false end) b.
+
+(* successor of an entry in an index *)
+Definition next_in (idx : list Z) (lo : Z) (hi : option Z) : Prop :=
+  exists pre rest, idx = pre ++ lo :: rest /\ hi = match rest with h :: _ => Some h | [] => None end.
